@@ -55,11 +55,15 @@ def model(rep, t):
         for sel, label in patterns(R).items():
             if R >= 4 and label not in ('all', 'odd', 'only-last (first selected row late)'):
                 continue
-            cfg = tlc.write_cfg(os.path.join(wd, 'p_%d_%d_%s.cfg' % (R, N, len(sel))), spec='FairSpec',
-                                constants={'R': R, 'N': N, 'Sel': tla_set(sel), 'Fail': tla_set(sel[:1]) if (R + N) % 3 == 0 else '{}'},
-                                invariants=['ExactlyOnce', 'AtMostOnce', 'AppliedBeforeDelivered', 'Quiescent'],
-                                properties=['NoRowAfterEnd', 'Termination'])
-            jobs.append((R, N, sel, label, cfg))
+            # a failing upstream iterator (FailAt) in the small configurations: the failure must surface with every actor finished
+            for failat in sorted(set([0] + ([1, (R + 1) // 2 + 1, R + 1] if R <= 3 and label in ('all', 'odd', 'none') else []))):
+                if failat > R + 1 or (failat and R == 0 and failat != 1):
+                    continue
+                cfg = tlc.write_cfg(os.path.join(wd, 'p_%d_%d_%s_%d.cfg' % (R, N, len(sel), failat)), spec='FairSpec',
+                                    constants={'R': R, 'N': N, 'Sel': tla_set(sel), 'Fail': tla_set(sel[:1]) if (R + N) % 3 == 0 else '{}', 'FailAt': failat},
+                                    invariants=['ExactlyOnce', 'AtMostOnce', 'AppliedBeforeDelivered', 'Quiescent', 'UpstreamFailureSurfaces'],
+                                    properties=['NoRowAfterEnd', 'Termination'])
+                jobs.append((R, N, sel, label + (' FailAt=%d' % failat if failat else ''), cfg))
     from concurrent.futures import ThreadPoolExecutor
     big = [j for j in jobs if j[0] * j[1] >= 8]
     small = [j for j in jobs if j not in big]
@@ -73,16 +77,25 @@ def model(rep, t):
         R, N, sel, label, _ = j
         total += res.distinct
         rep.add_tlc(res, 'Parallelize R=%d N=%d Sel=%s (%s): safety + Termination under WF' % (R, N, tla_set(sel), label))
+    # the model can tell the difference: the pinned tree's producer (swallows an upstream failure, never releases the workers) does not terminate
+    cfg = tlc.write_cfg(os.path.join(wd, 'swallow.cfg'), spec='FairSpec',
+                        constants={'R': 3, 'N': 2, 'Sel': '{2, 3}', 'Fail': '{}', 'FailAt': 3, 'SwallowUpstream': '<- SwallowsOn'},
+                        properties=['Termination'])
+    res = tlc.run_tlc('Parallelize', cfg, workers=2, timeout=3000)
+    if res.violated != 'Termination':
+        raise tlc.MachineryError('vacuity: with SwallowUpstream <- SwallowsOn Parallelize.tla must violate Termination')
+    rep.notes['non_vacuity_upstream_failure'] = 'with the pinned producer (SwallowUpstream) TLC refutes Termination when the upstream fails, as expected'
     return total
 
 
-def validate(rep, R, N, sel, traces, fail=()):
+def validate(rep, R, N, sel, traces, fail=(), failat=0):
     wd = tlc.workdir('c18t')
-    tf = tlc.write_ndjson(os.path.join(wd, 'tr.ndjson'), [dict(ev=t['ev'], feeds=t['feeds'], fin=t['fin']) for t in traces])
-    cfg = tlc.write_cfg(os.path.join(wd, 'tr.cfg'), spec='TraceSpec', constants={'R': R, 'N': N, 'Sel': tla_set(sel), 'Fail': tla_set(fail)},
+    tf = tlc.write_ndjson(os.path.join(wd, 'tr.ndjson'), [dict(ev=t['ev'], feeds=t['feeds'],
+                                                                fin=dict(dict(failed=False, clean=True), **t['fin'])) for t in traces])
+    cfg = tlc.write_cfg(os.path.join(wd, 'tr.cfg'), spec='TraceSpec', constants={'R': R, 'N': N, 'Sel': tla_set(sel), 'Fail': tla_set(fail), 'FailAt': failat},
                         constraints=['Progress'], postcondition='Report')
     res = tlc.run_tlc('ParallelizeTrace', cfg, workers=1, env={'TRACE_FILE': tf}, allow_violation=False, timeout=3000)
-    rep.add_tlc(res, 'ParallelizeTrace R=%d N=%d Sel=%s: %d traces' % (R, N, tla_set(sel), len(traces)))
+    rep.add_tlc(res, 'ParallelizeTrace R=%d N=%d Sel=%s%s: %d traces' % (R, N, tla_set(sel), ' FailAt=%d' % failat if failat else '', len(traces)))
     out = {}
     for v in res.tuples('VERDICT'):
         reg = v[1]
@@ -155,23 +168,26 @@ def spec_to_code(rep, t, r):
     to the real bodies; the projected queue state is compared with the spec state after every step"""
     from concurrent.futures import ThreadPoolExecutor
     wd = tlc.workdir('c18s')
-    grid = [(0, 1, (), ()), (1, 1, (1,), ()), (2, 1, (2,), ()), (3, 1, (1, 3), ()), (2, 2, (1, 2), ()), (3, 2, (2, 3), (3,)),
-            (4, 2, (1, 3), ()), (4, 3, (1, 2, 3, 4), (2,)), (3, 3, (3,), ()), (5, 2, (2, 3, 4, 5), ())]
+    grid = [(0, 1, (), (), 0), (1, 1, (1,), (), 0), (2, 1, (2,), (), 0), (3, 1, (1, 3), (), 0), (2, 2, (1, 2), (), 0), (3, 2, (2, 3), (3,), 0),
+            (4, 2, (1, 3), (), 0), (4, 3, (1, 2, 3, 4), (2,), 0), (3, 3, (3,), (), 0), (5, 2, (2, 3, 4, 5), (), 0),
+            # a failing upstream: before the start, in the middle, at exhaustion
+            (3, 2, (2, 3), (), 1), (3, 2, (1, 2, 3), (), 3), (4, 2, (1, 3), (), 5), (4, 3, (2, 4), (), 3), (2, 1, (1, 2), (), 2)]
     if t == 'thorough':
-        grid += [(6, 3, (1, 2, 3, 4, 5, 6), (4,)), (5, 4, (1, 3, 5), ()), (8, 2, (2, 4, 6, 8), ()), (4, 1, (2, 4), (2,))]
+        grid += [(6, 3, (1, 2, 3, 4, 5, 6), (4,), 0), (5, 4, (1, 3, 5), (), 0), (8, 2, (2, 4, 6, 8), (), 0), (4, 1, (2, 4), (2,), 0),
+                 (6, 3, (1, 2, 3, 4, 5, 6), (), 4), (5, 4, (1, 3, 5), (), 6)]
     num = 40 if t == 'quick' else 500
 
     def sim(g):
-        R, N, sel, fail = g
-        cfg = tlc.write_cfg(os.path.join(wd, 's_%d_%d_%d_%d.cfg' % (R, N, len(sel), len(fail))), spec='SimSpec',
-                            constants={'R': R, 'N': N, 'Sel': tla_set(sel), 'Fail': tla_set(fail)}, invariants=['SimSafe'], constraints=['Export'])
+        R, N, sel, fail, failat = g
+        cfg = tlc.write_cfg(os.path.join(wd, 's_%d_%d_%d_%d_%d.cfg' % (R, N, len(sel), len(fail), failat)), spec='SimSpec',
+                            constants={'R': R, 'N': N, 'Sel': tla_set(sel), 'Fail': tla_set(fail), 'FailAt': failat}, invariants=['SimSafe'], constraints=['Export'])
         return tlc.run_tlc('ParallelizeSim', cfg, workers=1, simulate='num=%d' % num, depth=1000, seed=rep.seed + R * 10 + N,
                            allow_violation=False, timeout=3000)
     with ThreadPoolExecutor(8) as ex:
         sims = list(ex.map(sim, grid))
     items = []
     for g, res in zip(grid, sims):
-        rep.add_tlc(res, 'ParallelizeSim -simulate R=%d N=%d Sel=%s Fail=%s: %d complete behaviours as scripts' % (g[0], g[1], tla_set(g[2]), tla_set(g[3]), len(res.cases)))
+        rep.add_tlc(res, 'ParallelizeSim -simulate R=%d N=%d Sel=%s Fail=%s FailAt=%d: %d complete behaviours as scripts' % (g[0], g[1], tla_set(g[2]), tla_set(g[3]), g[4], len(res.cases)))
         if not res.cases:
             raise tlc.MachineryError('ParallelizeSim produced no behaviour for %r' % (g,))
         seen = set()
@@ -180,13 +196,13 @@ def spec_to_code(rep, t, r):
             if key in seen:
                 continue
             seen.add(key)
-            items.append(dict(R=c['r'], N=c['n'], sel=list(c['sel']), fail_ids=list(c['fail']), script=c['script'], seed=len(items)))
+            items.append(dict(R=c['r'], N=c['n'], sel=list(c['sel']), fail_ids=list(c['fail']), fail_at=c['failat'], script=c['script'], seed=len(items)))
     traces = pmap(sched.run_script, items, chunksize=8)
     errs = harness_errors(traces)
     if errs:
         raise tlc.MachineryError('harness error in scripted scheduler: ' + errs[0])
     # the binding binds: a script with one operation removed cannot be followed
-    probe = next(it for it in items if any(e['a'] == 'FeedIn' for e in it['script']))
+    probe = next(it for it in items if any(e['a'] == 'FeedIn' for e in it['script']) and not it['fail_at'])
     k = next(i for i, e in enumerate(probe['script']) if e['a'] == 'FeedIn')
     broken = sched.run_script(dict(probe, script=probe['script'][:k] + probe['script'][k + 1:]))
     if broken['followed']:
@@ -194,17 +210,17 @@ def spec_to_code(rep, t, r):
     rep.notes['spec_to_code_binding_selftest'] = 'a behaviour with one FeedIn step removed diverges: ' + broken['divergence']['why']
     groups = {}
     for it, tr in zip(items, traces):
-        groups.setdefault((it['R'], it['N'], tuple(it['sel']), tuple(it['fail_ids'])), []).append((it, tr))
+        groups.setdefault((it['R'], it['N'], tuple(it['sel']), tuple(it['fail_ids']), it['fail_at']), []).append((it, tr))
     glist = sorted(groups.items())
     with ThreadPoolExecutor(8) as ex:
-        allverd = list(ex.map(lambda g: validate(rep, g[0][0], g[0][1], list(g[0][2]), [x[1] for x in g[1]], g[0][3]), glist))
+        allverd = list(ex.map(lambda g: validate(rep, g[0][0], g[0][1], list(g[0][2]), [x[1] for x in g[1]], g[0][3], g[0][4]), glist))
     ncmp = 0
-    for ((R, N, sel, fail), lst), verd in zip(glist, allverd):
+    for ((R, N, sel, fail, failat), lst), verd in zip(glist, allverd):
         for (it, tr), v in zip(lst, verd):
             rep.count(1, traces=1)
             rep.mark_distinct(['script', tr['ev']])
             ncmp += tr['states_compared']
-            short = dict(R=R, N=N, sel=list(sel), fail_ids=list(fail), script=it['script'])
+            short = dict(R=R, N=N, sel=list(sel), fail_ids=list(fail), fail_at=failat, script=it['script'])
             if not v['rec_once']:
                 rep.violation(short, dict(why='along a behaviour of the specification the implementation does not deliver exactly once / does not terminate',
                                           outcome=tr['fin'], divergence=tr['divergence'], deadlock=tr['deadlock'], error=tr['error'],
@@ -273,7 +289,7 @@ def replay(path):
         return 0
     tr = sched.run_script(c) if 'script' in c else sched.run_schedule(c)
     rep = Report(PROP)
-    v = validate(rep, c['R'], c['N'], c['sel'], [tr], c.get('fail_ids') or ())[0]
+    v = validate(rep, c['R'], c['N'], c['sel'], [tr], c.get('fail_ids') or (), c.get('fail_at') or 0)[0]
     print(v, tr['fin'], tr['deadlock'])
     if not v['rec_once']:
         print('VIOLATION property=%s replay=%s' % (PROP, path))
